@@ -327,6 +327,8 @@ type vC10World struct {
 	events  AsyncEvents
 	backend *Backend
 	mcu     bool
+	janus   *vC10Janus // mcu=2: the real Janus client on a stand-in gateway
+	mcuImpl Mcu
 
 	by  *vC10Conn
 	snd *vC10Conn
@@ -346,7 +348,7 @@ type vC10World struct {
 	lastKinds map[string]bool
 }
 
-func vC10NewHub(t *testing.T, mcu bool) (*Hub, *httptest.Server, AsyncEvents, error) {
+func vC10NewHub(t *testing.T, mcu int) (*Hub, *httptest.Server, AsyncEvents, error) {
 	r := mux.NewRouter()
 	r.HandleFunc("/", vC10BackendHandler)
 	r.HandleFunc("/ocs/v2.php/apps/spreed/api/v1/signaling/backend", vC10BackendHandler)
@@ -385,7 +387,7 @@ func vC10NewHub(t *testing.T, mcu bool) (*Hub, *httptest.Server, AsyncEvents, er
 		server.Close()
 		return nil, nil, nil, err
 	}
-	if mcu {
+	if mcu == 1 {
 		m, err := NewTestMCU()
 		if err != nil {
 			server.Close()
@@ -397,12 +399,26 @@ func vC10NewHub(t *testing.T, mcu bool) (*Hub, *httptest.Server, AsyncEvents, er
 	return h, server, events, nil
 }
 
-func vC10NewWorld(t *testing.T, mcu bool) (*vC10World, error) {
+func vC10NewWorld(t *testing.T, mcu int) (*vC10World, error) {
 	h, server, events, err := vC10NewHub(t, mcu)
 	if err != nil {
 		return nil, err
 	}
-	w := &vC10World{t: t, hub: h, server: server, events: events, mcu: mcu}
+	w := &vC10World{t: t, hub: h, server: server, events: events, mcu: mcu != 0}
+	if mcu == 2 {
+		// the real Janus client; every session may subscribe every stream (otherwise only the
+		// "in the same call" states would get past the hub), requests for streams nobody
+		// publishes give up quickly
+		m, gw, err := vC10NewJanusMcu()
+		if err != nil {
+			w.close()
+			return nil, err
+		}
+		w.janus, w.mcuImpl = gw, m
+		h.allowSubscribeAnyStream = true
+		h.mcuTimeout = vC10McuTimeout
+		h.SetMcu(m)
+	}
 	u, _ := url.Parse(server.URL)
 	w.backend = h.backend.GetBackend(u)
 	if w.backend == nil {
@@ -420,7 +436,36 @@ func vC10NewWorld(t *testing.T, mcu bool) (*vC10World, error) {
 		return nil, err
 	}
 	w.barrier()
+	if mcu == 2 {
+		if err := w.publishBystander(); err != nil {
+			w.close()
+			return nil, err
+		}
+	}
 	return w, nil
+}
+
+// publishBystander: the bystander publishes audio and video through the media
+// server, so that there is a stream the sender can ask for.
+func (w *vC10World) publishBystander() error {
+	offer := map[string]interface{}{"type": "message", "message": map[string]interface{}{
+		"recipient": map[string]interface{}{"type": "session", "sessionid": w.by.pub},
+		"data": map[string]interface{}{"type": "offer", "roomType": "video",
+			"payload": map[string]interface{}{"type": "offer", "sdp": MockSdpOfferAudioAndVideo}}}}
+	if err := w.by.sendJSON(offer); err != nil {
+		return err
+	}
+	var kinds []string
+	got := false
+	w.readUntil(w.by, &kinds, 5*time.Second, func(kind string, m *ServerMessage, sync bool, n int, tag string) bool {
+		got = kind == "message"
+		return got || strings.HasPrefix(kind, "error")
+	})
+	if !got {
+		return fmt.Errorf("the bystander could not publish: %v", kinds)
+	}
+	w.barrier()
+	return nil
 }
 
 func (w *vC10World) close() {
@@ -435,6 +480,12 @@ func (w *vC10World) close() {
 	time.Sleep(2 * time.Millisecond)
 	w.snd.close()
 	w.by.close()
+	if w.mcuImpl != nil {
+		if w.by != nil {
+			w.settle(w.by.pub)
+		}
+		w.mcuImpl.Stop()
+	}
 	for _, h := range []*Hub{w.hub, w.hub2} {
 		if h != nil {
 			h.Stop()
@@ -829,7 +880,7 @@ func (w *vC10World) setState(state string) error {
 	case "federated":
 		// a user of this hub joins a room of another signaling server through federation
 		if w.hub2 == nil {
-			w.hub2, w.server2, w.events2, err = vC10NewHub(w.t, false)
+			w.hub2, w.server2, w.events2, err = vC10NewHub(w.t, 0)
 			if err != nil {
 				return err
 			}
